@@ -60,7 +60,7 @@ def single_exit(cx):
             n_push += ok
             cx.check(ok, key, "messages are queued (Vec<Message>::push) only inside RaftCore::send", s)
         elif callee == "core::mem::take":
-            ok = fn_name(s.fn) in ("RawNode::gen_light_ready", "LightReady::take_messages")
+            ok = s.fn is cx.fn("RawNode::gen_light_ready") or fn_name(s.fn) == "LightReady::take_messages"
             cx.check(ok, key, "the outbound queue is drained only by gen_light_ready / LightReady::take_messages", s)
         else:
             cx.bad(key, "unrecognised mutation of a Vec<Message>: %s" % callee, s)
